@@ -79,7 +79,6 @@ func init() {
 			opts.Kinds = kinds
 			// one run in four may contain known-finding triggers, the rest avoids them all
 			if d.N(4) == 3 {
-				opts.ActivityDefault = true
 				opts.SubInLoop = true
 				opts.ForkInOr = true
 				opts.OrInAnd = true
@@ -89,6 +88,7 @@ func init() {
 			opts.MaxTasks = 3 + d.N(6)
 			opts.DataConds = d.Bool()
 			opts.StartFork = d.Bool()
+			opts.ActivityDefault = d.Bool()
 			prog := GenProgram(d, opts)
 			c := &ProcCase{Prog: prog, Buf: d.N(17), Hold: d.N(3)}
 			c.Picks = drawPicks(d, 48)
